@@ -127,6 +127,23 @@ func c09HistOps() []c09HistOp {
 			cfgs = append(cfgs, c)
 		}
 	}
+	opOne, opBoth := expr.Operator("+", "OpCat"), expr.Operator("+", "OpCat", "OpAdd") // option VALUES shared by the operations below
+	for _, src := range []string{`S + "x"`, "I + 1"} {
+		src := src
+		for _, c := range []struct {
+			name string
+			ops  []expr.Option
+		}{{"one table alone", []expr.Option{opOne}}, {"overlapping tables", []expr.Option{opBoth, opOne}}, {"overlapping tables, other order", []expr.Option{opOne, opBoth}}} {
+			c := c
+			ops = append(ops, c09HistOp{"Compile[shared Operator values: " + c.name + "] " + src, func() string {
+				p, err := lib.Compile(src, lib.Mode{Env: "struct", Opt: true}, c.ops...)
+				if err != nil {
+					return "error"
+				}
+				return progKey(p)
+			}})
+		}
+	}
 	for _, src := range []string{"I + 1", "Zz", "O.N", "I in [1, 2, 3]", `S matches "a"`, "Id(I) + J", "M.a", "map(A, {# + I})"} {
 		src := src
 		for _, c := range cfgs {
